@@ -1,8 +1,27 @@
 // Package rdbx is an independent Redis RDB / DUMP-payload encoder and decoder.  It exists only as
 // an oracle for the runtime monitors in /verif: it is written from the Redis on-disk format
 // (rdb.c, ziplist.c, listpack.c, intset.c, zipmap.c, t_stream.c, lzf) and shares no code with the
-// program under test.  The encoder and the decoder are written separately (encode*.go /
-// decode*.go) and only share the data model, the checksum and the LZF routines.
+// program under test.  The encoder and the decoder are written separately (encode.go /
+// decode.go) and only share the data model, the checksum and the LZF routines.  Nothing outside
+// the _test.go files imports /repo.
+//
+// How far the format knowledge is validated (see the tests):
+//   - against bytes written by real Redis servers 4.0/5.0/7.0/7.2 (the 35 fixture files embedded in
+//     the repo's own tests): the strict decoder reads all of them, CRC64 included, to the documented
+//     contents, and the encoder reproduces all 46 values in them byte for byte (after removing the
+//     LZF layer where Redis compressed).  That covers: file framing, AUX, SELECTDB, RESIZEDB,
+//     EXPIRETIME_MS, FUNCTION2, the crc=0 form, int8/16/32 and LZF strings, 6/14/64-bit lengths,
+//     intset 16, ziplist (imm4, int8+, int24+, 6-bit strings), listpack (uint7, 6-bit strings,
+//     1-byte back-length), quicklist v1/v2 (packed), ZSET_2, hash table/ziplist/listpack, stream
+//     listpacks v1 and v2 with groups, PEL and consumers.
+//   - from the Redis sources only (known-answer vectors in the tests, no real bytes available
+//     offline): the remaining ziplist/listpack integer widths and signs, wide string headers,
+//     multi-byte back-lengths, 5-byte prevlen, unknown-length headers, zipmap, ZSET (ascii scores),
+//     intset 32/64, PLAIN quicklist nodes, stream deleted entries / own-field entries / v3
+//     active-time, EXPIRETIME (seconds), IDLE, FREQ.
+//   - UNVERIFIED, mirrors what /repo expects and nothing more: stream listpacks "v4" (type code 26
+//     and the IDMP tail) and the SLOT_INFO opcode (0xf4 + three lengths).  Checks should not build
+//     verdicts on them.
 package rdbx
 
 import (
@@ -216,12 +235,12 @@ type StreamIIDEntry struct {
 }
 
 type Stream struct {
-	Entries                                            []StreamEntry // in ID order, deleted ones included (flagged)
-	LastMS, LastSeq                                    uint64
+	Entries                                              []StreamEntry // in ID order, deleted ones included (flagged)
+	LastMS, LastSeq                                      uint64
 	FirstMS, FirstSeq, MaxDelMS, MaxDelSeq, EntriesAdded uint64 // v2+
-	Length                                             uint64 // number of non-deleted entries
-	Groups                                             []StreamGroup
-	IDMP                                               *StreamIDMP // v4 only
+	Length                                               uint64 // number of non-deleted entries
+	Groups                                               []StreamGroup
+	IDMP                                                 *StreamIDMP // v4 only
 }
 
 type Value struct {
@@ -441,6 +460,7 @@ const (
 	fZmFree
 	fZmBigLen
 	fZmBigItem
+	fZmItem253
 	fScoreAscii
 	fScoreBin
 	fScoreInf
@@ -455,6 +475,7 @@ const (
 	fStreamNegDiff
 	fStreamIDMP
 	fStreamEmpty
+	fStreamSameAfterOwn
 	fOpExpireMs
 	fOpExpireSec
 	fOpIdle
@@ -478,11 +499,11 @@ var featureNames = [numFeatures]string{
 	fLpLenUnknown: "lp:len-unknown",
 	fQlZiplist:    "ql:ziplist", fQlPlain: "ql:plain", fQlPacked: "ql:packed",
 	fIntset16: "intset:16", fIntset32: "intset:32", fIntset64: "intset:64",
-	fZmFree: "zm:free", fZmBigLen: "zm:biglen", fZmBigItem: "zm:bigitem",
+	fZmFree: "zm:free", fZmBigLen: "zm:biglen", fZmBigItem: "zm:bigitem", fZmItem253: "zm:item253",
 	fScoreAscii: "score:ascii", fScoreBin: "score:bin", fScoreInf: "score:inf", fScoreNegInf: "score:-inf", fScoreNaN: "score:nan",
 	fStreamSameFields: "stream:samefields", fStreamOwnFields: "stream:ownfields", fStreamDeleted: "stream:deleted",
 	fStreamGroups: "stream:groups", fStreamPEL: "stream:pel", fStreamMultiLP: "stream:multi-lp",
-	fStreamNegDiff: "stream:negdiff", fStreamIDMP: "stream:idmp", fStreamEmpty: "stream:empty",
+	fStreamNegDiff: "stream:negdiff", fStreamIDMP: "stream:idmp", fStreamEmpty: "stream:empty", fStreamSameAfterOwn: "stream:same-after-own",
 	fOpExpireMs: "op:expire-ms", fOpExpireSec: "op:expire-s", fOpIdle: "op:idle", fOpFreq: "op:freq",
 }
 
